@@ -392,6 +392,8 @@ def run(ctx, eng):
     allowed = {('increment_flow_control_window', 'window_opened'),
                ('acknowledge_received_data', 'process_bytes'),
                ('_handle_data_on_closed_stream', 'process_bytes'),
+               # (the closed-stream refill written out in the DATA handler)
+               ('_receive_data_frame', 'process_bytes'),
                ('_receive_data_frame', 'window_consumed')}
     found = set()
     cls = m.cls('connection.H2Connection')
